@@ -1,7 +1,13 @@
 package props
 
 import (
+	"encoding/json"
 	"fmt"
+	"os"
+	"strings"
+
+	"github.com/paulsonkoly/calc/parser"
+	"github.com/paulsonkoly/calc/types/node"
 
 	"verif/core"
 	"verif/sess"
@@ -19,7 +25,7 @@ func (C08) Runs(t core.Tier) int {
 	if t == core.Thorough {
 		return 2_000_000
 	}
-	return 40_000
+	return 30_000
 }
 func (C08) Rule() string {
 	return "One run = twin sessions A and B over one generated history (definitions + up to 10 top-level statements). A receives failing statements: F2 unparsable text, F1 runtime errors of every class raised at top level, at call depth d, in loop iteration k, inside a generator or a generator of a generator, each embedded in a statement whose completed global prefix is known, and F3 aborts injected at the k-th fallible instruction of a statement that writes its global last. B receives the completed prefix instead (or nothing). Every later statement must give the same value, output and error class in A and B, and after every failure the machine must be at rest. Non-trivial = at least one fault fired at call depth >= 1 or inside a loop/generator and >= 2 statements ran after it. Distinct = hash of statement shapes, fault plan and context-switch traces."
@@ -49,13 +55,44 @@ type fault struct {
 	a, b  string // what A and B submit (b may be "")
 	tag   string
 	depth bool // fired at depth>=1 or inside loop/generator
+	// probes are statements that use what the completed prefix bound (functions, generators,
+	// arrays); they are submitted to both sessions after later statements have compiled new code.
+	probes []string
+	// open: the failing text leaves a brace open, so in a line stream it legitimately keeps
+	// absorbing the following lines; such faults are left out of the stream phase.
+	open bool
 }
 
 // drawFault builds a failing statement and its failure-free twin.
 func drawFault(tp *tape.Tape, fresh func() string) fault {
 	x, y, z := fresh(), fresh(), fresh()
 	pre := x + " = " + fmt.Sprint(1+tp.Draw(9))
+	var probes []string
+	switch tp.Draw(6) {
+	case 1: // the completed prefix binds a function: its code lives inside the failed statement
+		c := 2 + tp.Draw(7)
+		pre = fmt.Sprintf("%s = (n) -> n * %d + %d", x, c, tp.Draw(9))
+		probes = []string{fmt.Sprintf("%s(%d)", x, 1+tp.Draw(9))}
+	case 2: // ... a generator
+		c := 1 + tp.Draw(7)
+		pre = fmt.Sprintf("%s = (n) -> {\nyield n\nyield n + %d\nyield n * 2\n}", x, c)
+		lv := fresh()
+		probes = []string{fmt.Sprintf("for %s <- %s(%d) {\nwrite(toa(%s) + \";\")\n}", lv, x, tp.Draw(9), lv)}
+	case 3: // ... a recursive function and a closure maker
+		pre = fmt.Sprintf("%s = (n) -> if n <= 0 {\n%d\n} else {\nn + %s(n - 1)\n}", x, tp.Draw(9), x)
+		probes = []string{fmt.Sprintf("%s(%d)", x, tp.Draw(6))}
+	case 4: // ... an array holding computed elements and a string
+		pre = fmt.Sprintf("%s = [%d, \"s%d\", [%d + %d]]", x, tp.Draw(9), tp.Draw(9), tp.Draw(9), tp.Draw(9))
+		probes = []string{x, "#" + x}
+	}
 	post := z + " = 7"
+	mk := func(a, b, tag string, depth bool) fault {
+		f := fault{a: a, b: b, tag: tag, depth: depth}
+		if b == pre && b != "" {
+			f.probes = probes
+		}
+		return f
+	}
 	wrap := func(failing string) (string, string) {
 		switch tp.Draw(3) {
 		case 0: // bare failing assignment, nothing completed
@@ -70,51 +107,58 @@ func drawFault(tp *tape.Tape, fresh func() string) fault {
 	switch tp.Draw(12) {
 	case 0:
 		a, b := wrap("1 / 0")
-		return fault{a, b, "F1.zero_div.top", false}
+		return mk(a, b, "F1.zero_div.top", false)
 	case 1:
 		a, b := wrap(fmt.Sprintf("bomb(%d, 0)", d))
-		return fault{a, b, "F1.zero_div.depth", true}
+		return mk(a, b, "F1.zero_div.depth", true)
 	case 2:
 		a, b := wrap(fmt.Sprintf("bidx(%d, [1, 2, 3])", d))
-		return fault{a, b, "F1.index.depth", true}
+		return mk(a, b, "F1.index.depth", true)
 	case 3:
 		a, b := wrap(fmt.Sprintf("btyp(%d, \"s\")", d))
-		return fault{a, b, "F1.type.depth", true}
+		return mk(a, b, "F1.type.depth", true)
 	case 4:
 		a, b := wrap(fmt.Sprintf("btyp(%d, nosuchname)", d))
-		return fault{a, b, "F1.nil.depth", true}
+		return mk(a, b, "F1.nil.depth", true)
 	case 5:
 		a, b := wrap("bomb(1)")
-		return fault{a, b, "F1.arity", false}
+		return mk(a, b, "F1.arity", false)
 	case 6:
 		a, b := wrap("aton(\"zz\")")
-		return fault{a, b, "F1.conversion", false}
+		return mk(a, b, "F1.conversion", false)
 	case 7:
 		n := 2 + tp.Draw(5)
 		a, b := wrap(fmt.Sprintf("bloop(%d, %d, %d)", n, tp.Draw(n), d))
-		return fault{a, b, "F1.in_loop_body", true}
+		return mk(a, b, "F1.in_loop_body", true)
 	case 8:
 		n := 2 + tp.Draw(5)
 		a, b := wrap(fmt.Sprintf("bnest(%d, %d)", n, tp.Draw(n)))
-		return fault{a, b, "F1.in_generator_of_generator", true}
+		return mk(a, b, "F1.in_generator_of_generator", true)
 	case 9:
 		n := 2 + tp.Draw(5)
 		a, b := wrap(fmt.Sprintf("bzip(%d, %d)", n, tp.Draw(n)))
-		return fault{a, b, "F1.in_zip_member", true}
+		return mk(a, b, "F1.in_zip_member", true)
 	case 10: // top-level loop over a failing generator: the body assigns globals before the failure
 		n := 2 + tp.Draw(5)
 		k := tp.Draw(n)
 		v := fresh()
 		a := fmt.Sprintf("for %s <- bgen(%d, %d, 0) {\n%s = %s * 2\n}", v, n, k, y, v)
 		b := fmt.Sprintf("for %s <- fromto(0, %d) {\n%s = %s * 2\n}", v, k, y, v)
-		return fault{a, b, "F1.toplevel_for_over_failing_generator", true}
+		if tp.Bool() && k > 0 { // the body binds a function in every completed iteration
+			a = fmt.Sprintf("for %s <- bgen(%d, %d, 0) {\n%s = (n) -> n * 3 + %d\n}", v, n, k, y, k)
+			b = fmt.Sprintf("for %s <- fromto(0, %d) {\n%s = (n) -> n * 3 + %d\n}", v, k, y, k)
+			f := mk(a, b, "F1.toplevel_for_over_failing_generator", true)
+			f.probes = []string{fmt.Sprintf("%s(%d)", y, tp.Draw(9))}
+			return f
+		}
+		return mk(a, b, "F1.toplevel_for_over_failing_generator", true)
 	default: // unparsable text
-		g := []string{"1 +)", "x = ", "if", "1 $ 2", "{\n1\n", "for a <- ", "(1, 2", "\"abc", "f(,)", "1 = 2", "}", "else 2"}
+		g := []string{"1 +)", "x = ", "if", "1 $ 2", "{\n1\n", "for a <- ", "(1, 2", "\"abc", "f(,)", "1 = 2", "}", "else 2", "]", "1 + ]", "qx = [1, 2", "}}", "f(1)) }", "[1, 2]]"}
 		s := g[tp.Draw(len(g))]
 		if s == "\"abc" { // unterminated string without newline spins the lexer (C06, unclaimed): keep out
 			s = "1 +)"
 		}
-		return fault{s, "", "F2.garbage", false}
+		return fault{a: s, tag: "F2.garbage", open: strings.Count(s, "{") > strings.Count(s, "}") || strings.Count(s, "[") > strings.Count(s, "]")}
 	}
 }
 
@@ -125,14 +169,22 @@ func (C08) Run(tp *tape.Tape) core.Result {
 	g := newGen(tp, sw)
 	h := &Hist{Flavour: flavour(sw.Repl)}
 	A, B := sess.New(), sess.New()
-	faultRate := tp.Draw(4)  // 0: fault-free configuration
-	abortRate := tp.Draw(3)  // 0: no injected aborts
+	faultRate := tp.Draw(4) // 0: fault-free configuration
+	abortRate := tp.Draw(3) // 0: no injected aborts
 	key := core.NewHash().Str(h.Flavour)
 	trace := core.NewHash()
 	firedDeep, afterFault := false, 0
+	streamPhase := tp.Draw(3) == 2 // 0: in-process twin only
+	var lsteps []lstep
+	var pending, allProbes []string
+	nDefs := 0         // the definitions at the head of the history share one marker in the stream phase
+	sawBudget := false // a statement ran into the per-statement instruction budget: no stream phase (the loop has no statement boundaries to budget by)
 	top := g.TopScope(sw.TopRet)
 	nfresh := 0
-	fresh := func() string { nfresh++; return "q" + string(rune('a'+(nfresh-1)%26)) + string(rune('a'+(nfresh-1)/26)) }
+	fresh := func() string {
+		nfresh++
+		return "q" + string(rune('a'+(nfresh-1)%26)) + string(rune('a'+(nfresh-1)/26))
+	}
 
 	check := func(label string, oa, ob []sess.Outcome) bool {
 		if len(oa) != len(ob) {
@@ -152,6 +204,9 @@ func (C08) Run(tp *tape.Tape) core.Result {
 	rest := func(label string, s *sess.Session, outs []sess.Outcome) bool {
 		for _, o := range outs {
 			r.Instructions += o.Steps
+			if o.Kind == sess.KBudget {
+				sawBudget = true
+			}
 			trace = trace.Str(o.Kind).Str(o.Val).Str(o.Out).Str(o.Err)
 			key = key.Int(int(o.Trace))
 			if o.Kind == sess.KPanic {
@@ -167,6 +222,7 @@ func (C08) Run(tp *tape.Tape) core.Result {
 	}
 	both := func(src string) bool {
 		h.add(src)
+		lsteps = append(lsteps, lstep{src, src, true})
 		key = key.Str(shapeOf(src))
 		oa := A.Submit(src+"\n", sw.Repl)
 		ob := B.Submit(src+"\n", sw.Repl)
@@ -189,6 +245,7 @@ func (C08) Run(tp *tape.Tape) core.Result {
 			goto done
 		}
 	}
+	nDefs = len(lsteps)
 	for i := 0; i < sw.NStmts+2; i++ {
 		// fault?
 		if faultRate > 0 && tp.Draw(5-faultRate) == 0 {
@@ -208,6 +265,14 @@ func (C08) Run(tp *tape.Tape) core.Result {
 					goto done
 				}
 				r.Inc(f.tag, 1)
+				if !f.open {
+					lsteps = append(lsteps, lstep{f.a, f.b, false})
+				}
+				if len(f.probes) > 0 {
+					pending = append(pending, f.probes...)
+					allProbes = append(allProbes, f.probes...)
+					r.Inc("F1.completed_prefix_binds_function_or_array", 1)
+				}
 				if f.depth {
 					firedDeep = true
 					afterFault = 0
@@ -250,6 +315,7 @@ func (C08) Run(tp *tape.Tape) core.Result {
 					}
 				} else {
 					// the statement completed in A (normally or with its own error): B must run it too
+					lsteps = append(lsteps, lstep{src, src, true})
 					ob := B.Submit(src+"\n", sw.Repl)
 					if rest("B "+trunc(src, 40), B, ob) || check("statement (abort not reached) "+trunc(src, 60), oa, ob) {
 						goto done
@@ -260,6 +326,28 @@ func (C08) Run(tp *tape.Tape) core.Result {
 				goto done
 			}
 		}
+		if len(pending) > 0 && tp.Bool() {
+			for _, pr := range pending {
+				r.Inc("probe.use_of_binding_completed_inside_failed_statement", 1)
+				if both(pr) {
+					goto done
+				}
+			}
+			pending = nil
+		}
+	}
+	for _, pr := range allProbes { // once more at the end: code compiled since then sits where the failed statement's would
+		r.Inc("probe.use_of_binding_completed_inside_failed_statement", 1)
+		if both(pr) {
+			goto done
+		}
+	}
+	if streamPhase && faultRate > 0 && !sawBudget {
+		r.Inc("stream.histories_through_node_Loop", 1)
+		h.Notes = "stream phase: the steps above, each followed by write(\"\\n@@i@@\\n\"), through node.Loop over a real file; failing steps replaced by their completed prefix for twin B"
+		if v := c08Stream(lsteps, nDefs, sw.Repl, &r, h); v != nil {
+			r.Violation = v
+		}
 	}
 done:
 	mergeFeat(&r, g)
@@ -269,5 +357,139 @@ done:
 	r.Interleaving = uint64(trace)
 	r.TraceHash = uint64(trace)
 	r.Sample = h
+	return r
+}
+
+func shmDir() string {
+	if st, err := os.Stat("/dev/shm"); err == nil && st.IsDir() {
+		return "/dev/shm"
+	}
+	return ""
+}
+
+// cutReports removes runtime error reports (they quote instruction indices, which differ
+// between twins) from a step's output: everything from "RUNTIME ERROR" to the end of the step.
+func cutReports(s string) string {
+	if i := strings.Index(s, "RUNTIME ERROR : "); i >= 0 {
+		return s[:i] + "<report>"
+	}
+	return s
+}
+
+// lstep is one step of a stream history: what the failing session and its failure-free twin read.
+type lstep struct {
+	a, b string
+	cmp  bool
+}
+
+// c08Stream runs the stream phase of C08: the same history through the real read-eval loop
+// (node.Loop + FReader + processInput) on a real file, once with the failing statements and once
+// with their completed prefixes; a marker statement after every step delimits its output.
+func c08Stream(lsteps []lstep, nDefs int, repl bool, r *core.Result, h *Hist) *core.Violation {
+	// Stream phase: the same history through the real read-eval loop (node.Loop + FReader +
+	// processInput) on a real file, once with the failing statements and once with their
+	// completed prefixes; a marker statement after every step delimits its output.
+	render := func(pickA bool) string {
+		var b strings.Builder
+		for i, st := range lsteps {
+			t := st.a
+			if !pickA {
+				t = st.b
+			}
+			if t != "" {
+				b.WriteString(t + "\n")
+			}
+			if i >= nDefs-1 {
+				fmt.Fprintf(&b, "write(\"\\n@@%d@@\\n\")\n", i)
+			}
+		}
+		return b.String()
+	}
+	runLoop := func(text string) (segs []string, pmsg string) {
+		f, err := os.CreateTemp(shmDir(), "simcalc-c08-*")
+		if err != nil {
+			return nil, "tempfile: " + err.Error()
+		}
+		name := f.Name()
+		f.WriteString(text)
+		f.Close()
+		defer os.Remove(name)
+		defer func() {
+			if p := recover(); p != nil {
+				pmsg = fmt.Sprint(p)
+				sess.TakeOutput()
+			}
+		}()
+		s := sess.New()
+		s.Budget = int64(len(lsteps)+1) * sess.DefaultBudget // every statement stayed inside DefaultBudget in the twin phase
+		s.Activate()
+		fr := node.NewFReader(name)
+		defer fr.Close()
+		node.Loop(fr, parser.Type{}, s.VM, repl)
+		r.Instructions += s.Steps
+		out := sess.TakeOutput()
+		for i := range lsteps {
+			if i < nDefs-1 {
+				segs = append(segs, "")
+				continue
+			}
+			mark := fmt.Sprintf("\n@@%d@@\n", i)
+			k := strings.Index(out, mark)
+			if k < 0 {
+				segs = append(segs, out)
+				return segs, fmt.Sprintf("marker %d never printed", i)
+			}
+			segs = append(segs, out[:k])
+			out = out[k+len(mark):]
+			if repl { // the marker statement's own "> nil" line
+				if nl := strings.IndexByte(out, '\n'); nl >= 0 {
+					out = out[nl+1:]
+				}
+			}
+		}
+		return segs, ""
+	}
+	sa, ea := runLoop(render(true))
+	sb, eb := runLoop(render(false))
+	if eb != "" {
+		r.Violation = &core.Violation{Clause: "stream-twin-broken", Detail: "failure-free stream: " + eb + "; output so far " + trunc(strings.Join(sb, "|"), 300), History: h}
+		return r.Violation
+	}
+	if ea != "" {
+		r.Violation = &core.Violation{Clause: "stream-session-lost", Detail: "stream with failing statements: " + ea + " (everything after it was never evaluated or the loop died); last output " + trunc(strings.Join(sa, "|"), 300), History: h}
+		return r.Violation
+	}
+	for i, st := range lsteps {
+		if !st.cmp {
+			continue
+		}
+		ca, cb := cutReports(sa[i]), cutReports(sb[i])
+		if ca != cb {
+			r.Violation = &core.Violation{Clause: "stream-twin-differs", Detail: fmt.Sprintf("step %d %q through node.Loop: after the failures it printed %q, in the failure-free stream %q", i, trunc(st.a, 60), trunc(ca, 200), trunc(cb, 200)), History: h}
+			return r.Violation
+		}
+	}
+	return r.Violation
+}
+
+// RunScript: steps are the lines of a stream; a step starting with "!" is a failing statement
+// that the failure-free twin never sees ("!text" or "!text|completed prefix").
+func (C08) RunScript(raw json.RawMessage) core.Result {
+	var r core.Result
+	sc, h, err := parseScript(raw)
+	if err != nil {
+		r.Discard = err.Error()
+		return r
+	}
+	var ls []lstep
+	for _, st := range sc.Steps {
+		if strings.HasPrefix(st, "!") {
+			a, b, _ := strings.Cut(st[1:], "|")
+			ls = append(ls, lstep{a, b, false})
+		} else {
+			ls = append(ls, lstep{st, st, true})
+		}
+	}
+	c08Stream(ls, 0, sc.Flavour == "repl", &r, h)
 	return r
 }
